@@ -2,6 +2,7 @@ package props
 
 import (
 	"fmt"
+	"go/token"
 	"sort"
 	"strings"
 
@@ -80,6 +81,7 @@ func c04(r *core.Run) {
 	r.Rule("R7", "requests are not parked on an orphaned work item (shared with C01.H1): the group registry is re-created before the workers of each run and the service is declared stopped only after all workers exited; otherwise, after a Shutdown with queued work and a restart, every request for that resource is appended to a work item no worker will run and is never answered", 2)
 	r.Rule("R8", "one delivery per request (shared with C09.S3): the loop that subscribes to get/call/auth subjects skips subjects covered by another subscribed subject, judged after the method wildcard was appended; two overlapping subscriptions deliver a request twice and it is answered twice", 1)
 	r.Rule("R9", "no queued request is dropped (shared with C02.Q3): the service work queue is only ever tail-appended, head-dropped ([1:] of itself, or reset to the empty buffer prefix when exactly one item is queued), initialised and closed; any other store (a bounded copy, a truncation) can discard queued work items under a burst, and the requests they hold are never answered", 5)
+	r.Rule("R10", "the lookup entry cannot panic on a short name: in Mux.GetHandler (called on the listener goroutine, where nothing recovers) every non-constant index or slice bound applied to a string is related to that string's length by a dominating comparison", 2)
 	r.Rule("R5", "every handler call (dynamic call passing a request object) lies in a function that defers a recover closure in its entry block", 3)
 
 	models := c04Models(r, "R0")
@@ -89,6 +91,7 @@ func c04(r *core.Run) {
 		c02WorkQueueShape(r, "R9", sa, root)
 	}
 	coveringRule(r, "R8")
+	c04NoBoundsPanic(r)
 
 	// ---- R0 funnel ------------------------------------------------------
 	funnels := map[*ssa.Function]bool{}
@@ -111,32 +114,48 @@ func c04(r *core.Run) {
 			r.Bad("R0", tn, "single-flag-writer", "-", fmt.Sprintf("flag %s is set true by %d methods", m.flag, len(setters)))
 			continue
 		}
-		funnel := setters[0]
+		funnel := replyFunnel(p, setters[0])
 		funnels[funnel] = true
-		r.Check(len(ws) == 1 && ws[0] == core.FuncName(funnel), "R0", core.FuncName(funnel), "who-may-write("+m.flag.String()+")", p.Pos(funnel.Pos()),
+		inFunnel := map[string]bool{}
+		for _, h := range p.Helpers(funnel) {
+			inFunnel[core.FuncName(h)] = true
+		}
+		onlyFunnel := len(ws) > 0
+		for _, w := range ws {
+			if !inFunnel[w] {
+				onlyFunnel = false
+			}
+		}
+		r.Check(onlyFunnel, "R0", core.FuncName(funnel), "who-may-write("+m.flag.String()+")", p.Pos(funnel.Pos()),
 			"only writer is the funnel", "flag written by "+strings.Join(ws, ", "))
 		// inside the funnel: flag test then store(true) then publish
 		var store *ssa.Store
-		for _, b := range funnel.Blocks {
-			for _, in := range b.Instrs {
-				if st, ok := in.(*ssa.Store); ok && isConstBool(st.Val, true) {
-					if f, ok := core.FieldOf(st.Addr); ok && f == m.flag {
-						store = st
+		for _, h := range p.Helpers(funnel) {
+			for _, b := range h.Blocks {
+				for _, in := range b.Instrs {
+					if st, ok := in.(*ssa.Store); ok && isConstBool(st.Val, true) {
+						if f, ok := core.FieldOf(st.Addr); ok && f == m.flag {
+							store = st
+						}
 					}
 				}
 			}
 		}
 		guarded := false
-		for _, e := range dominatingEdges(store) {
-			if describeCond(e) == "!"+m.flag.String() {
-				guarded = true
+		if store != nil {
+			for _, e := range ctxEdges(p, store, funnel, 0) {
+				for _, d := range impliedConds(e, 0) {
+					if d == "!"+m.flag.String() {
+						guarded = true
+					}
+				}
 			}
 		}
 		r.Check(guarded, "R0", core.FuncName(funnel), "store-true-guarded-by-!flag", p.InstrPos(store),
 			"store of true is dominated by the false edge of the flag test (second reply is refused)", "the flag is set without first testing it: a second reply would be published")
 		pubs := invokes([]*ssa.Function{funnel}, "Conn", "Publish")
 		for _, pc := range pubs {
-			ok := core.Dominates(store, pc)
+			ok := store != nil && p.DominatesIn(funnel, store, pc)
 			r.Check(ok, "R0", core.FuncName(funnel), "publish-after-store-true", p.InstrPos(pc),
 				"Conn.Publish dominated by flag test + store(true)", "Conn.Publish not dominated by the flag store: may publish twice")
 		}
@@ -723,4 +742,189 @@ func judgedByCallers(p *core.Prog, m *replyModel, fn *ssa.Function, disp map[*ss
 		}
 	}
 	return true
+}
+
+// replyFunnel: the reply funnel for a flag setter. The flag may be set by a
+// small private helper of the reply method ("mark as replied"): the funnel is
+// then the method that calls it and publishes.
+func replyFunnel(p *core.Prog, setter *ssa.Function) *ssa.Function {
+	funnel := setter
+	hasPublish := func(fn *ssa.Function) bool { return len(invokes([]*ssa.Function{fn}, "Conn", "Publish")) > 0 }
+	for d := 0; d < 3 && !hasPublish(funnel) && p.IsPrivateHelper(funnel); d++ {
+		var callers []*ssa.Function
+		for _, c := range p.CallersOf(funnel) {
+			if o := c.Parent(); len(callers) == 0 || callers[len(callers)-1] != o {
+				callers = append(callers, o)
+			}
+		}
+		if len(callers) != 1 {
+			break
+		}
+		funnel = callers[0]
+	}
+	return funnel
+}
+
+// c04NoBoundsPanic is C04.R10: on the listener goroutine nothing recovers a
+// panic, so a lookup that indexes or slices the requested name beyond its
+// length takes the service down instead of answering system.notFound. Every
+// index / slice bound applied to a string in the lookup entry is related to
+// that string's length by a dominating comparison (or is a loop counter
+// tested against it).
+func c04NoBoundsPanic(r *core.Run) {
+	p := r.P
+	gh := methodNamed(p, "", "Mux", "GetHandler")
+	if gh == nil {
+		r.Unres("R10", "Mux.GetHandler", "missing")
+		return
+	}
+	var eq func(a, b ssa.Value, d int) bool
+	eq = func(a, b ssa.Value, d int) bool {
+		a, b = core.Strip(a), core.Strip(b)
+		if a == b {
+			return true
+		}
+		if d > 3 {
+			return false
+		}
+		ca, ok1 := a.(*ssa.Call)
+		cb, ok2 := b.(*ssa.Call)
+		if ok1 && ok2 && core.CalleeName(ca) == "builtin:len" && core.CalleeName(cb) == "builtin:len" {
+			return eq(ca.Call.Args[0], cb.Call.Args[0], d+1)
+		}
+		fa, ok1 := core.LoadedField(a)
+		fb, ok2 := core.LoadedField(b)
+		if ok1 && ok2 && fa == fb {
+			return true
+		}
+		return sameRoot(a, b) // two loads of one local variable (a variable captured by a closure lives in a cell)
+	}
+	// operands a bound is made of: v itself and, for v = x +/- const, x
+	parts := func(v ssa.Value) []ssa.Value {
+		out := []ssa.Value{v}
+		if bo, ok := core.Strip(v).(*ssa.BinOp); ok && (bo.Op == token.ADD || bo.Op == token.SUB) {
+			if _, isC := core.ConstInt(bo.Y); isC {
+				out = append(out, bo.X)
+			}
+		}
+		return out
+	}
+	n := 0
+	for _, fn := range p.Scope(gh) {
+		if fn.Parent() != nil {
+			continue // a local closure's bounds are its parameters / captured variables: not judged
+		}
+		for _, b := range fn.Blocks {
+			for _, in := range b.Instrs {
+				var str ssa.Value
+				var bounds []ssa.Value
+				switch x := in.(type) {
+				case *ssa.Slice:
+					if isStringType(x.X.Type()) {
+						str = x.X
+						for _, bd := range []ssa.Value{x.Low, x.High} {
+							if bd != nil {
+								bounds = append(bounds, bd)
+							}
+						}
+					}
+				case *ssa.Index:
+					if isStringType(x.X.Type()) {
+						str, bounds = x.X, []ssa.Value{x.Index}
+					}
+				case *ssa.Lookup:
+					if isStringType(x.X.Type()) {
+						str, bounds = x.X, []ssa.Value{x.Index}
+					}
+				}
+				for _, bd := range bounds {
+					if _, isC := core.ConstInt(bd); isC {
+						if k, _ := core.ConstInt(bd); k == 0 {
+							continue
+						}
+					}
+					n++
+					related := false
+					for _, ed := range dominatingEdges(in) {
+						cnd, _ := ed.Norm()
+						bo, ok := cnd.(*ssa.BinOp)
+						if !ok {
+							continue
+						}
+						switch bo.Op {
+						case token.LSS, token.LEQ, token.GTR, token.GEQ, token.EQL, token.NEQ:
+						default:
+							continue
+						}
+						for _, side := range [][2]ssa.Value{{bo.X, bo.Y}, {bo.Y, bo.X}} {
+							lc, ok := core.Strip(side[0]).(*ssa.Call)
+							if !ok || core.CalleeName(lc) != "builtin:len" || !eq(lc.Call.Args[0], str, 0) {
+								continue
+							}
+							for _, pt := range parts(bd) {
+								if eq(side[1], pt, 0) {
+									related = true
+								}
+								// a loop counter: phi compared with the length
+								if phi, ok := core.Strip(pt).(*ssa.Phi); ok && eq(side[1], phi, 0) {
+									related = true
+								}
+							}
+						}
+					}
+					// len(x) held in a variable: compare through the defining call
+					if !related {
+						for _, ed := range dominatingEdges(in) {
+							cnd, _ := ed.Norm()
+							bo, ok := cnd.(*ssa.BinOp)
+							if !ok {
+								continue
+							}
+							for _, side := range [][2]ssa.Value{{bo.X, bo.Y}, {bo.Y, bo.X}} {
+								for _, pt := range parts(bd) {
+									if eq(side[1], pt, 0) {
+										if lc, ok := core.Strip(side[0]).(*ssa.Call); ok && core.CalleeName(lc) == "builtin:len" && eq(lc.Call.Args[0], str, 0) {
+											related = true
+										}
+									}
+								}
+							}
+						}
+					}
+					// a loop-carried position (start of the current token): every source is a constant or a
+					// loop counter (+/- constant) that the function compares with the string's length
+					if phi, ok := core.Strip(bd).(*ssa.Phi); ok && !related {
+						all := true
+						for _, src := range phiSources(phi) {
+							if _, isC := core.ConstInt(src.V); isC {
+								continue
+							}
+							okSrc := false
+							for _, pt := range parts(src.V) {
+								for _, b2 := range fn.Blocks {
+									for _, i2 := range b2.Instrs {
+										bo, ok := i2.(*ssa.BinOp)
+										if !ok {
+											continue
+										}
+										for _, side := range [][2]ssa.Value{{bo.X, bo.Y}, {bo.Y, bo.X}} {
+											if lc, ok := core.Strip(side[0]).(*ssa.Call); ok && core.CalleeName(lc) == "builtin:len" && eq(lc.Call.Args[0], str, 0) && eq(side[1], pt, 0) {
+												okSrc = true
+											}
+										}
+									}
+								}
+							}
+							if !okSrc {
+								all = false
+							}
+						}
+						related = all
+					}
+					r.Check(related, "R10", core.FuncName(fn), "bound-related-to-length:"+valDesc(bd), p.InstrPos(in), "the index / slice bound was compared with the string's length on the way here", "the requested name is indexed or sliced at "+valDesc(bd)+" without that bound having been compared with the name's length: a request for a shorter name panics on the listener goroutine (nothing recovers there), the request is never answered and Serve goes down")
+				}
+			}
+		}
+	}
+	r.Analysed["lookup_entry_bounds"] = n
 }
